@@ -107,6 +107,11 @@ func raceSolvers2(script, ground string, dir string, name string, timeoutS int) 
 				if !jb.unsatOnly {
 					st = "sat"
 				}
+			default:
+				// an ill-formed query is a bug of the generator, never an answer
+				if fl := firstLine(o); strings.HasPrefix(fl, "(error") && !strings.Contains(fl, "bv-to-int") && !strings.Contains(fl, "option") && !jb.unsatOnly && jb.sp.name == "z3-new-5.1.0" {
+					st = "error"
+				}
 			}
 			ch <- solveResult{status: st, solver: jb.sp.name, seconds: time.Since(t0).Seconds(), output: o}
 		}()
@@ -115,6 +120,11 @@ func raceSolvers2(script, ground string, dir string, name string, timeoutS int) 
 	var satRes *solveResult
 	for i := 0; i < len(jobs); i++ {
 		r := <-ch
+		if r.status == "error" {
+			cancel()
+			r.seconds = time.Since(start).Seconds()
+			return r
+		}
 		if r.status == "unsat" {
 			cancel()
 			r.seconds = time.Since(start).Seconds()
@@ -513,6 +523,8 @@ func (x *Exec) dischargeAll(obls []*Obligation, dir string, timeoutS int, par in
 				o.Status = "discharged"
 			case "sat":
 				o.Status = "failed"
+			case "error":
+				o.Status = "engine-error"
 			default:
 				o.Status = "unknown"
 			}
